@@ -2,6 +2,7 @@
 CONSTANTS LoopDelayOwnFreeVars = TRUE
           LoopDurationMapped = FALSE
           ParamValuesReachDelays = TRUE
+          ChecksBeforeSave = TRUE AliasesReachDurations = TRUE
           Family = "cex"
 INIT Init
 NEXT Next
